@@ -575,15 +575,39 @@ func c13GateCase(c *Ctx, bed *px.Bed, j c13Job, v primitive.ProtocolVersion, op 
 // c13GateChain sends every rejected (version, opcode) combination back-to-back on ONE connection: each gets exactly one
 // protocol error, nothing reaches the backend and the connection is still usable afterwards.
 func c13GateChain(c *Ctx, bed *px.Bed, j c13Job) {
+	c13GateChainX(c, bed, j, false)
+	c13GateChainX(c, bed, j, true)
+}
+
+// c13GateChainX: warm = the connection has completed OPTIONS, STARTUP and a forwarded QUERY in an accepted version before
+// the frames of rejected versions arrive (the version is judged frame by frame, not once per connection).
+func c13GateChainX(c *Ctx, bed *px.Bed, j c13Job, warm bool) {
 	r := c.R
 	max := j.Max
-	c.Step("C13 gate chain max=%s", c13VerName(max))
+	c.Step("C13 gate chain max=%s warm=%v", c13VerName(max), warm)
 	cl, err := bed.Client(max)
 	if err != nil {
 		r.Inconc("dial: " + err.Error())
 		return
 	}
 	defer cl.Close()
+	sfx := ""
+	if warm {
+		sfx = "/after-accepted-frames"
+		ok := c13Barrier(cl, []primitive.ProtocolVersion{max}, 900, 1) == "ok"
+		for i, op := range []primitive.OpCode{primitive.OpCodeStartup, primitive.OpCodeQuery} {
+			st := int16(910 + i)
+			ch := cl.Expect(st)
+			_ = cl.SendRaw(c13Wire(max, st, 0, "", c13Msg(max, op, NewTok())), "warm-up")
+			if _, err := cl.Wait(ch, c13Watchdog); err != nil {
+				ok = false
+			}
+		}
+		if !ok {
+			r.Inconc("gate chain: warm-up frames in an accepted version were not answered")
+			return
+		}
+	}
 	type sent struct {
 		v  primitive.ProtocolVersion
 		op primitive.OpCode
@@ -609,7 +633,7 @@ func c13GateChain(c *Ctx, bed *px.Bed, j c13Job) {
 		return
 	}
 	r.Eval(1)
-	r.NonTrivial("gate/chain/max=" + c13VerName(max))
+	r.NonTrivial("gate/chain/max=" + c13VerName(max) + sfx)
 	mark := bed.Log.Len()
 	_ = cl.SendRaw(wire, "gate chain")
 	res := c13Barrier(cl, []primitive.ProtocolVersion{max, 3}, 1000, 3)
@@ -625,7 +649,7 @@ func c13GateChain(c *Ctx, bed *px.Bed, j c13Job) {
 			}
 		}
 		if wrong != "" {
-			r.Violate(mon.Violation{Signature: "C13/gate/chain-rejected-frame-accepted/max=" + c13VerName(max), Scenario: scen,
+			r.Violate(mon.Violation{Signature: "C13/gate/chain-rejected-frame-accepted/max=" + c13VerName(max) + sfx, Scenario: scen,
 				Detail: fmt.Sprintf("%d frames of versions the proxy must reject were pipelined on one connection: %s (frames received: %s)", len(all), wrong, c13Kinds(cl.Frames()))})
 			return
 		}
@@ -633,7 +657,7 @@ func c13GateChain(c *Ctx, bed *px.Bed, j c13Job) {
 		return
 	}
 	if res != "ok" {
-		r.Violate(mon.Violation{Signature: "C13/gate/chain-leaves-connection-unusable/max=" + c13VerName(max), Scenario: scen,
+		r.Violate(mon.Violation{Signature: "C13/gate/chain-leaves-connection-unusable/max=" + c13VerName(max) + sfx, Scenario: scen,
 			Detail: fmt.Sprintf("%d rejected frames pipelined on one connection, then OPTIONS: %s; frames received: %s", len(all), res, c13Kinds(cl.Frames()))})
 		return
 	}
@@ -644,14 +668,18 @@ func c13GateChain(c *Ctx, bed *px.Bed, j c13Job) {
 			code, _, ok = c13ErrorOf(fs[0], "")
 		}
 		if len(fs) != 1 || !ok || code != primitive.ErrorCodeProtocolError {
-			r.Violate(mon.Violation{Signature: fmt.Sprintf("C13/gate/chain/v=%s/max=%s/frames=%s", c13VerName(s.v), c13VerName(max), c13Kinds(fs)), Scenario: scen,
+			r.Violate(mon.Violation{Signature: fmt.Sprintf("C13/gate/chain/v=%s/max=%s/frames=%s", c13VerName(s.v), c13VerName(max), c13Kinds(fs)) + sfx, Scenario: scen,
 				Detail: fmt.Sprintf("pipelined rejected frame %s %s on stream %d: expected exactly one PROTOCOL error, got %s", c13VerName(s.v), c13OpName(s.op), s.st, c13Kinds(fs))})
 		} else {
 			r.Obs("gate_chain_rejected", 1)
 		}
 	}
-	if n := len(cl.Frames()); n != len(all)+3 {
-		r.Violate(mon.Violation{Signature: "C13/gate/chain-stray-frames/max=" + c13VerName(max), Scenario: scen,
+	extra := 3 // the barrier's SUPPORTED frames
+	if warm {
+		extra += 3 // ... and the answers to the warm-up OPTIONS, STARTUP and QUERY
+	}
+	if n := len(cl.Frames()); n != len(all)+extra {
+		r.Violate(mon.Violation{Signature: "C13/gate/chain-stray-frames/max=" + c13VerName(max) + sfx, Scenario: scen,
 			Detail: fmt.Sprintf("expected %d errors + 3 SUPPORTED, got %d frames: %s", len(all), n, c13Kinds(cl.Frames()))})
 	}
 	// backend traffic caused by the rejected frames: frames in a rejected version or carrying one of their tokens (a
@@ -671,7 +699,7 @@ func c13GateChain(c *Ctx, bed *px.Bed, j c13Job) {
 		}
 	}
 	if len(be) > 0 {
-		r.Violate(mon.Violation{Signature: "C13/gate/chain-forwarded/max=" + c13VerName(max), Scenario: scen, Detail: "rejected frames caused backend traffic: " + c13DescribeBackend(be)})
+		r.Violate(mon.Violation{Signature: "C13/gate/chain-forwarded/max=" + c13VerName(max) + sfx, Scenario: scen, Detail: "rejected frames caused backend traffic: " + c13DescribeBackend(be)})
 	}
 }
 
